@@ -527,3 +527,29 @@ func onlyLoaded(instr *ssa.IndexAddr) bool {
 	onlyLoadedCache[instr] = r
 	return r
 }
+
+// encodeRuneSym returns the UTF-8 encoding of a symbolic rune; the length class
+// is fixed by decisions, the bytes are terms (utf8.EncodeRune semantics:
+// surrogates and out-of-range values encode U+FFFD).
+func encodeRuneSym(sv symv) []value {
+	w, _ := kindInfo(sv.k)
+	t := resize(sv.t, 32, true)
+	_ = w
+	k32 := func(c uint64) *term { return kconst(c, 32) }
+	b8 := func(x *term) value { return wrapTerm(mk(opExtract, 8, x), types.Uint8) }
+	shr := func(x *term, n uint64) *term { return mk(opBvLshr, 32, x, k32(n)) }
+	and := func(x *term, m uint64) *term { return mk(opBvAnd, 32, x, k32(m)) }
+	or := func(x *term, m uint64) *term { return mk(opBvOr, 32, x, k32(m)) }
+	ult := func(x *term, c uint64) *term { return tult(x, k32(c)) }
+	switch {
+	case ex.branch(ult(t, 0x80)):
+		return []value{b8(t)}
+	case ex.branch(ult(t, 0x800)):
+		return []value{b8(or(shr(t, 6), 0xC0)), b8(or(and(t, 0x3F), 0x80))}
+	case ex.branch(tor(tand(tule(k32(0xD800), t), ult(t, 0xE000)), tule(k32(0x110000), t))):
+		return []value{byte(0xEF), byte(0xBF), byte(0xBD)}
+	case ex.branch(ult(t, 0x10000)):
+		return []value{b8(or(shr(t, 12), 0xE0)), b8(or(and(shr(t, 6), 0x3F), 0x80)), b8(or(and(t, 0x3F), 0x80))}
+	}
+	return []value{b8(or(shr(t, 18), 0xF0)), b8(or(and(shr(t, 12), 0x3F), 0x80)), b8(or(and(shr(t, 6), 0x3F), 0x80)), b8(or(and(t, 0x3F), 0x80))}
+}
